@@ -76,3 +76,19 @@ Fixpoint np_for_from {St} (k i : nat) (body : nat -> St -> option St) (s : St) :
   | S k' => match body i s with Some s' => np_for_from k' (S i) body s' | None => None end
   end.
 Definition np_for {St} (n : nat) (body : nat -> St -> option St) (s : St) : option St := np_for_from n 0 body s.
+
+(* list(itertools.combinations(l, 2)): pairs in the order of l, first component slowest *)
+Fixpoint np_combinations2 (l : list nat) : list (nat * nat) :=
+  match l with
+  | [] => []
+  | x :: r => map (fun y => (x, y)) r ++ np_combinations2 r
+  end.
+(* [f(v) for v in l] where f may raise *)
+Fixpoint np_mapM {A B} (f : A -> option B) (l : list A) : option (list B) :=
+  match l with
+  | [] => Some []
+  | x :: r => match f x with
+              | Some y => match np_mapM f r with Some ys => Some (y :: ys) | None => None end
+              | None => None
+              end
+  end.
